@@ -201,6 +201,66 @@ pub fn run(ctx: &Ctx, out: &mut Out) {
             out.case(crate::prng::fnv64(&c.data), true);
         }
         judge(out, &cfg, &mut d, cases);
+        // very long VER lists with draft-13 among the first four entries: must be answered
+        {
+            let mut cases = Vec::new();
+            for len in [7usize, 64, 255, 256, 257, 258, 259, 300, 340] {
+                for pos in [0usize, 3] {
+                    let mut vers: Vec<u32> = (0..len).map(|i| 0x9000_0000 + i as u32).collect();
+                    vers[pos] = DRAFT13;
+                    let data = req::ietf_request(&vers, None, &rng.bytes(32), 1500);
+                    if data.len() != 1500 {
+                        continue;
+                    }
+                    out.case(crate::prng::fnv64(&data), true);
+                    out.obs("long_version_list_cases", 1);
+                    cases.push(Case { vers, srv: None, srv_mode: "absent", data });
+                }
+            }
+            judge(out, &cfg, &mut d, cases);
+        }
+        // extra tags around SRV (its position among the tags changes): a wrong SRV still silences
+        {
+            use crate::refimpl::codec::*;
+            let mut cases = Vec::new();
+            for extra in [vec![SIG], vec![SIG, PATH], vec![PATH], vec![INDX, SIG]] {
+                for mode in ["wrong", "correct"] {
+                    let mut m = RefMsg::new();
+                    m.set(VER, &DRAFT13.to_le_bytes());
+                    m.set(NONC, &rng.bytes(32));
+                    let s = if mode == "wrong" { other_srv.clone() } else { my_srv.clone() };
+                    m.set(SRV, &s);
+                    for t in &extra {
+                        m.set(*t, &rng.bytes(8));
+                    }
+                    m.set(ZZZZ, &[]);
+                    let base = 12 + m.encode().len();
+                    m.set(ZZZZ, &vec![0u8; 1024 - base]);
+                    let data = m.encode_framed();
+                    out.case(crate::prng::fnv64(&data), true);
+                    out.obs("srv_with_extra_tags_cases", 1);
+                    cases.push(Case { vers: vec![DRAFT13], srv: Some(s), srv_mode: if mode == "wrong" { "wrong" } else { "correct" }, data });
+                }
+            }
+            judge(out, &cfg, &mut d, cases);
+        }
+        // near misses of the draft-13 number (single lists and pairs): none of them names it
+        {
+            let near: [u32; 12] = [0x0000_000c, 0x8000_010c, 0x0c00_0080, 0x8000_00c0, 0x8000_000c ^ 1, 0x8000_000c ^ 0x4000_0000, 0x0000_800c, 0xc000_000c, 0x8000_000c - 1, 0x8000_000c + 1, 0x7fff_ffff, 0x8000_0000];
+            let mut cases = Vec::new();
+            for a in near {
+                cases.push(Case { vers: vec![a], srv: None, srv_mode: "absent", data: req::ietf_request(&[a], None, &rng.bytes(32), 1024) });
+                for b in [near[0], near[1], 0] {
+                    cases.push(Case { vers: vec![a, b], srv: None, srv_mode: "absent", data: req::ietf_request(&[a, b], None, &rng.bytes(32), 1024) });
+                }
+                cases.push(Case { vers: vec![a, DRAFT13], srv: None, srv_mode: "absent", data: req::ietf_request(&[a, DRAFT13], None, &rng.bytes(32), 1024) });
+            }
+            for c in &cases {
+                out.case(crate::prng::fnv64(&c.data), true);
+                out.obs("near_miss_version_cases", 1);
+            }
+            judge(out, &cfg, &mut d, cases);
+        }
         // VER values whose bytes contain the draft-13 word only at unaligned offsets
         {
             let mut cases = Vec::new();
